@@ -388,7 +388,11 @@ func genS5(thorough bool, emit func(tcase)) {
 	}
 	for i, a := range s5names {
 		for _, b := range s5names[i:] {
-			emit(tcase{Scenario: "S5", Threads: [][]string{{a}, {b}}, Bound: bound})
+			bd := 1
+			if s5reqs[a].handler == s5reqs[b].handler {
+				bd = bound // two requests to one handler share its closure: the deeper bound goes there
+			}
+			emit(tcase{Scenario: "S5", Threads: [][]string{{a}, {b}}, Bound: bd})
 		}
 	}
 	// two requests per thread on the handlers that answer with and without a status of their own
